@@ -18,7 +18,7 @@ GEN_VERSION = 1
 # one fixed, distinctive value per context key (all different from every processor default)
 KEY_VALUES: Dict[str, Any] = {
     "a": 1.5, "b": 2.5, "r": 4.0, "factor": 5.0, "addend": 0.75, "path": "p_ctx.txt", "value": 9.0, "gain": 1.25,
-    "zz": 0.125, "nest": {"limits": {"hi": 7, "lo": 1}, "alpha": 2},
+    "zz": 0.125, "p.q": 3.5, "nest": {"limits": {"hi": 7, "lo": 1}, "alpha": 2},
 }
 
 
@@ -94,6 +94,9 @@ SYMBOLS: Dict[str, dict] = {
     "del_a": dict(node=_n("delete:a"), kind="ctx", op="delete", src="a", params=[("a", NODEF)], cfg={}, reads=["a"]),
     "tmpl_a": dict(node=_n('template:"v_{r}":a'), kind="ctx", op="template", tmpl="v_{r}", dst="a", params=[("r", NODEF)], cfg={}, reads=["r", "a"]),
     "tmpl_path": dict(node=_n('template:"o_{a}{b}.txt":path'), kind="ctx", op="template", tmpl="o_{a}{b}.txt", dst="path", params=[("a", NODEF), ("b", NODEF)], cfg={}, reads=["a", "b", "path"]),
+    # string edges: dotted context keys (the unquoted template form shown in one documentation example does not resolve: not a symbol)
+    "ren_r_dot": dict(node=_n("rename:r:p.q"), kind="ctx", op="rename", src="r", dst="p.q", params=[("r", NODEF)], cfg={}, reads=["r", "p.q"]),
+    "del_dot": dict(node=_n("delete:p.q"), kind="ctx", op="delete", src="p.q", params=[("p.q", NODEF)], cfg={}, reads=["p.q"]),
     # create-and-require-in-one-node: reads key a and writes key a
     "tmpl_aa": dict(node=_n('template:"{a}_x":a'), kind="ctx", op="template", tmpl="{a}_x", dst="a", params=[("a", NODEF)], cfg={}, reads=["a"]),
     # slicers
